@@ -192,35 +192,49 @@ Proof.
 Qed.
 
 (* ---- the module-context map ----------------------------------------------------------------------------------- *)
-Definition ctx_inv (mi : module_info) : Prop :=
-  forall k c, assoc k (module_context_map mi) = Some c -> exists n, k = c ++ [n] /\ c <> [].
+(* key of a `let` declaration (module path, name, initialiser): path ++ [name] *)
+Definition let_key (d : list ident * ident * expr) : sym := fst (fst d) ++ [snd (fst d)].
+Definition let_keys (prog : list item) : list sym := map let_key (let_decls prog).
 
-Definition nolet_ok (prefix : list ident) (it : item) : bool :=
-  if nonempty prefix then no_let_item it else top_no_mod_let it.
+(* every entry of module_context_map is  path ++ [name] -> path  for a function, or  [name] -> path  for a `let`
+   member `name` of module `path` (G = the keys of the declared lets); the path is never empty *)
+Definition ctx_inv (G : list sym) (mi : module_info) : Prop :=
+  forall k c, assoc k (module_context_map mi) = Some c ->
+              c <> [] /\ ((exists n, k = c ++ [n]) \/ (exists n, k = [n] /\ In (c ++ [n]) G)).
+
+Definition lets_in (G : list sym) (prefix : list ident) (it : item) : bool :=
+  forallb (fun d => mem (let_key d) G) (let_decls_item prefix it).
 
 Lemma nonempty_snoc : forall A (l : list A) x, nonempty (l ++ [x]) = true.
 Proof. intros A l x. destruct l; reflexivity. Qed.
 
-Lemma flatten_ctx : forall prog, no_mod_let prog = true -> ctx_inv (snd (flatten prog)).
+Lemma nonempty_neq : forall A (l : list A), nonempty l = true -> l <> [].
+Proof. intros A l H E. subst l. discriminate. Qed.
+
+Lemma flatten_ctx : forall prog, ctx_inv (let_keys prog) (snd (flatten prog)).
 Proof.
-  intros prog Hno. unfold flatten.
-  refine (through_items (fun mi _ => ctx_inv mi) nolet_ok _ _ _ _ _ prog [] mi_empty [] _ _).
-  - intros prefix pub n body H. unfold nolet_ok in *.
-    assert (Hb : forallb no_let_item body = true) by (destruct (nonempty prefix); exact H).
-    apply forallb_forall. intros x Hx. rewrite nonempty_snoc. rewrite forallb_forall in Hb. apply Hb. exact Hx.
+  intros prog. unfold flatten. set (G := let_keys prog).
+  refine (through_items (fun mi _ => ctx_inv G mi) (lets_in G) _ _ _ _ _ prog [] mi_empty [] _ _).
+  - intros prefix pub n body H. unfold lets_in in *. cbn [let_decls_item] in H. rewrite forallb_forall in H.
+    apply forallb_forall. intros x Hx. apply forallb_forall. intros d Hd. apply H. apply in_flat_map. exists x. auto.
   - intros prefix pub n ps b mi D _ HI. cbn [flatten_item snd]. destruct (nonempty prefix) eqn:Hne.
     + intros k c Hk. cbn [module_context_map ctx_insert vis_insert] in Hk. cbn [assoc] in Hk.
       destruct (sym_eqb k (prefix ++ [n])) eqn:E.
-      * apply sym_eqb_eq in E. injection Hk as Hc. subst c k. exists n. split; auto. destruct prefix; [discriminate|discriminate].
+      * apply sym_eqb_eq in E. injection Hk as Hc. subst c k. split. apply nonempty_neq. exact Hne. left. exists n. reflexivity.
       * apply HI. exact Hk.
     + exact HI.
-  - intros prefix n b mi D Hok HI. cbn [flatten_item snd]. unfold nolet_ok in Hok. destruct (nonempty prefix).
-    + cbn [no_let_item] in Hok. discriminate.
+  - intros prefix n b mi D Hok HI. cbn [flatten_item snd]. destruct (nonempty prefix) eqn:Hne.
+    + intros k c Hk. cbn [module_context_map ctx_insert] in Hk. cbn [assoc] in Hk.
+      destruct (sym_eqb k [n]) eqn:E.
+      * apply sym_eqb_eq in E. injection Hk as Hc. subst c k. split. apply nonempty_neq. exact Hne. right. exists n. split; auto.
+        unfold lets_in in Hok. cbn [let_decls_item forallb] in Hok. rewrite andb_true_r in Hok. apply mem_In in Hok. exact Hok.
+      * apply HI. exact Hk.
     + exact HI.
   - intros m mi D HI. exact HI.
   - intros prefix pub p t mi D _ HI. cbn [flatten_item snd]. unfold ctx_inv. rewrite process_use_ctx.
     destruct (use_external_load_fields p prefix mi) as [_ [_ Hc]]. rewrite Hc. exact HI.
-  - unfold nolet_ok. cbn [nonempty]. exact Hno.
+  - apply forallb_forall. intros it Hit. unfold lets_in. apply forallb_forall. intros d Hd. apply mem_In.
+    unfold G, let_keys. apply in_map. unfold let_decls. apply in_flat_map. exists it. auto.
   - intros k c Hk. cbn in Hk. discriminate.
 Qed.
 
